@@ -929,7 +929,7 @@ fn case(g: &mut Gen, ctx: &mut Ctx) -> CaseResult {
         let mut base = gen_small_header(g);
         let deep = g.bool();
         let z = |x: f64| if deep { Value::Array(vec![Value::from(1), Value::Float(x)]) } else { Value::Float(x) };
-        base.rest.push((Label::Int(300), z(0.0)));
+        base.rest.push((Label::Int(9_000), z(0.0)));
         let mut twin = base.clone();
         twin.rest.last_mut().unwrap().1 = z(-0.0);
         ops.insert(0, Op::Protected(base.clone()));
